@@ -1,5 +1,7 @@
 import MwVerif.Model.Sections
 import MwVerif.Lemmas.Lists.Paths
+import MwVerif.Lemmas.Cells.Lossless
+import MwVerif.Model.Rows
 /-!
 # C02 — well-formed markup parses to the structure it denotes (section nesting)
 
@@ -201,3 +203,25 @@ theorem c02_list_depth (ls : List Line) (p : Piece) (h : p ∈ pathsL [] (analyz
 -- compared with the real parser through the driver, mode `lists`)
 
 end MwVerif.Lists
+
+/-! ### tables: rows and cells (models of `TableRowParser` and `TableCellParser`) -/
+
+/-- **C02 (table rows).**  Grouping the tokens of a table into rows drops nothing: every token that is
+not a row marker ends up exactly once, in order, in a row — its children, or the attribute segment of
+a `|-` row — or stays a loose token of the table, for every token sequence. -/
+theorem c02_rows_lossless (ts : List MwVerif.Rows.Tok) :
+    ((MwVerif.Rows.rows ts).flatMap MwVerif.Rows.contents).filter MwVerif.Rows.inRow = ts.filter MwVerif.Rows.inRow :=
+  MwVerif.Rows.rows_lossless ts.length ts (Nat.le_refl _)
+
+/-- **C02 (table cells).**  Grouping the tokens of a row into cells drops nothing: every token that is
+not a cell marker ends up exactly once, in order, in a cell — its body, or the attribute segment before
+its first `|` — or stays a loose token of the row, for every token sequence and header flag. -/
+theorem c02_cells_lossless (flag : Bool) (ts : List MwVerif.Cells.Tok) :
+    ((MwVerif.Cells.cells flag ts).flatMap MwVerif.Cells.contents).filter MwVerif.Cells.inCell = ts.filter MwVerif.Cells.inCell :=
+  MwVerif.Cells.cells_lossless ts.length flag ts (Nat.le_refl _)
+
+/-- `! a || b` then `| c`: a header flag set by `!` holds for the `||` cell and is reset by `|`. -/
+example : MwVerif.Cells.cells false [.col (some true), .other 1, .col none, .other 2, .col (some false), .other 3]
+    = [.cell true [] [.other 1], .cell true [] [.other 2], .cell false [] [.other 3]] := by
+  simp [MwVerif.Cells.cells, MwVerif.Cells.mkCell, MwVerif.Cells.afterCell, MwVerif.Cells.inCell, MwVerif.Cells.Tok.isStart,
+    MwVerif.Cells.Tok.isEnd, MwVerif.Cells.splitAttrs]
